@@ -98,3 +98,294 @@ Proof.
   pose proof (step_returns s q) as H. destruct (api_step cfg_now s q) as [s1 r].
   specialize (IH s1). destruct (api_run cfg_now s1 t) as [s2 rs]. cbn in *. constructor; assumption.
 Qed.
+
+(* ================= part 2: refinement ================= *)
+Definition sval_of (c : option content) : sval :=
+  match c with
+  | None => SVoid
+  | Some c =>
+      if c_void c then SVoid
+      else match c_sc c with
+           | Some (t, z) => SSc t z
+           | None => match c_sl c with Some l => SSl l | None => SVoid end
+           end
+  end.
+Definition abs_rec (r : rec) : srec := {| s_val := sval_of (r_c r); s_meta := r_meta r |}.
+Definition amap {A B} (f : A -> B) (l : list (Z * A)) : list (Z * B) := map (fun p => (fst p, f (snd p))) l.
+Definition abs_swamp (x : swamp) : sswamp := amap abs_rec (recs x).
+Definition abs (s : srv) : sstate := amap abs_swamp s.
+
+(* stored records of a history inside the specified inputs: one form of content, no pending flags *)
+Definition single (c : option content) : bool :=
+  match c with
+  | None => false
+  | Some c =>
+      match c_void c, c_sc c, c_sl c with
+      | true, None, None => true
+      | false, Some _, None => true
+      | false, None, Some _ => true
+      | _, _, _ => false
+      end
+  end.
+Definition wf_rec (r : rec) : bool := negb (r_dirty r) && single (r_c r).
+Definition aall {A} (f : A -> bool) (l : list (Z * A)) : bool := forallb (fun p => f (snd p)) l.
+Definition wf_swamp (x : swamp) : bool :=
+  match infl x with [] => true | _ => false end && aall wf_rec (recs x).
+Definition wf (s : srv) : bool := aall wf_swamp s.
+
+(* ---- association lists ---- *)
+Lemma aget_amap {A B} (f : A -> B) k l : aget k (amap f l) = option_map f (aget k l).
+Proof. induction l as [|[k' v] t IH]; cbn; [reflexivity|]. destruct (k =? k'); [reflexivity|exact IH]. Qed.
+Lemma ahas_amap {A B} (f : A -> B) k l : ahas k (amap f l) = ahas k l.
+Proof. unfold ahas. rewrite aget_amap. destruct (aget k l); reflexivity. Qed.
+Lemma aput_amap {A B} (f : A -> B) k v l : amap f (aput k v l) = aput k (f v) (amap f l).
+Proof. induction l as [|[k' v'] t IH]; cbn; [reflexivity|]. destruct (k =? k'); cbn; [reflexivity|]. f_equal. exact IH. Qed.
+Lemma adel_amap {A B} (f : A -> B) k l : amap f (adel k l) = adel k (amap f l).
+Proof. induction l as [|[k' v'] t IH]; cbn; [reflexivity|]. destruct (k =? k'); cbn; [reflexivity|]. f_equal. exact IH. Qed.
+Lemma aput_same {A} k (v : A) l : aget k l = Some v -> aput k v l = l.
+Proof.
+  induction l as [|[k' v'] t IH]; cbn; [discriminate|]. destruct (k =? k') eqn:E.
+  - intros H; inversion H; subst. apply Z.eqb_eq in E; subst. reflexivity.
+  - intros H. f_equal. apply IH; exact H.
+Qed.
+Lemma aall_aput {A} (f : A -> bool) k v l : aall f l = true -> f v = true -> aall f (aput k v l) = true.
+Proof.
+  induction l as [|[k' v'] t IH]; cbn; intros H Hv.
+  - rewrite Hv; reflexivity.
+  - apply andb_true_iff in H as [H1 H2]. destruct (k =? k'); cbn.
+    + rewrite Hv; exact H2.
+    + rewrite H1. apply IH; assumption.
+Qed.
+Lemma aall_adel {A} (f : A -> bool) k l : aall f l = true -> aall f (adel k l) = true.
+Proof.
+  induction l as [|[k' v'] t IH]; cbn; intros H; [reflexivity|].
+  apply andb_true_iff in H as [H1 H2]. destruct (k =? k'); cbn; [exact H2|]. rewrite H1. apply IH; exact H2.
+Qed.
+Lemma aall_aget {A} (f : A -> bool) k v l : aall f l = true -> aget k l = Some v -> f v = true.
+Proof.
+  induction l as [|[k' v'] t IH]; cbn; intros H G; [discriminate|].
+  apply andb_true_iff in H as [H1 H2]. destruct (k =? k'); [inversion G; subst; exact H1 | apply IH; assumption].
+Qed.
+Lemma amap_nil_iff {A B} (f : A -> B) l : amap f l = [] <-> l = [].
+Proof. destruct l; cbn; split; intros H; try reflexivity; discriminate. Qed.
+Lemma length_amap {A B} (f : A -> B) l : length (amap f l) = length l.
+Proof. apply map_length. Qed.
+
+(* ---- state-level facts ---- *)
+Lemma exists_abs s sw : s_exists (abs s) sw = exists_sw s sw.
+Proof. apply ahas_amap. Qed.
+Lemma check_abs s sw b : s_check (abs s) sw b = check_name s sw b.
+Proof. unfold s_check, check_name. rewrite exists_abs. reflexivity. Qed.
+Lemma summon_abs s sw : s_summon (abs s) sw = abs_swamp (summon s sw).
+Proof. unfold s_summon, summon, abs. rewrite aget_amap. destruct (aget sw s); reflexivity. Qed.
+Lemma commit_abs s sw x a : abs (commit s sw x a) = s_commit (abs s) sw (abs_swamp x) a.
+Proof. unfold commit, s_commit, abs. destruct a; [apply aput_amap | apply adel_amap]. Qed.
+Lemma wf_summon s sw : wf s = true -> wf_swamp (summon s sw) = true.
+Proof.
+  intros H. unfold summon. destruct (aget sw s) eqn:E; [|reflexivity].
+  eapply aall_aget in E; eauto.
+Qed.
+Lemma wf_commit s sw x a : wf s = true -> wf_swamp x = true -> wf (commit s sw x a) = true.
+Proof. intros H Hx. unfold commit, wf. destruct a; [apply aall_aput; assumption | apply aall_adel; assumption]. Qed.
+
+Lemma view_abs k r : view_of k r = sview k (abs_rec r).
+Proof.
+  unfold view_of, sview, abs_rec, sval_of, ctype_of, sl_all; cbn.
+  destruct (r_c r) as [c|]; [|reflexivity].
+  destruct (c_void c); [reflexivity|]. destruct (c_sc c) as [[t z]|]; [reflexivity|].
+  destruct (c_sl c); reflexivity.
+Qed.
+Lemma view_clone_abs k r : wf_rec r = true -> view_of k (clone_rec r) = sview k (abs_rec r).
+Proof.
+  unfold wf_rec, single. intros H. apply andb_true_iff in H as [_ H].
+  unfold view_of, sview, abs_rec, sval_of, ctype_of, sl_all, clone_rec; cbn.
+  destruct (r_c r) as [c|]; [|discriminate].
+  destruct (c_void c), (c_sc c) as [[t z]|], (c_sl c); try discriminate; reflexivity.
+Qed.
+
+(* ---- reads ---- *)
+Lemma aget_abs_swamp x k : aget k (abs_swamp x) = option_map abs_rec (aget k (recs x)).
+Proof. apply aget_amap. Qed.
+Lemma ahas_abs_swamp x k : ahas k (abs_swamp x) = ahas k (recs x).
+Proof. apply ahas_amap. Qed.
+
+Lemma get_views_abs x keys : get_views x keys = s_get_views (abs_swamp x) keys.
+Proof.
+  unfold get_views, s_get_views. apply map_ext. intros k. rewrite aget_abs_swamp.
+  destruct (aget k (recs x)); cbn; [apply view_abs | reflexivity].
+Qed.
+Lemma views_of_keys_abs x keys :
+  views_of_keys x keys = flat_map (fun k => match aget k (abs_swamp x) with Some r => [sview k r] | None => [] end) keys.
+Proof.
+  unfold views_of_keys. induction keys as [|k t IH]; cbn; [reflexivity|]. rewrite IH, aget_abs_swamp.
+  destruct (aget k (recs x)); cbn; [rewrite view_abs|]; reflexivity.
+Qed.
+Lemma all_views_abs x : all_views x = map (fun p => sview (fst p) (snd p)) (abs_swamp x).
+Proof.
+  unfold all_views, abs_swamp, amap. rewrite map_map. apply map_ext. intros [k r]; cbn. apply view_abs.
+Qed.
+Lemma get_validate_abs l s single :
+  get_validate cfg_now s single l = s_get_validate (abs s) single l.
+Proof.
+  induction l as [|[sw keys] t IH]; cbn; [reflexivity|]. rewrite check_abs.
+  destruct (check_name s sw single); [reflexivity|]. destruct keys as [[|k0 ks]|]; try reflexivity.
+  destruct (k0 =? 0); [reflexivity | exact IH].
+Qed.
+
+(* ---- deletes ---- *)
+Definition with_recs (x : swamp) (l : list (Z * rec)) : swamp := {| recs := l; infl := infl x |}.
+Lemma wf_with_adel x k : wf_swamp x = true -> wf_swamp {| recs := adel k (recs x); infl := infl x |} = true.
+Proof.
+  unfold wf_swamp; cbn. intros H. apply andb_true_iff in H as [H1 H2]. rewrite H1; cbn. apply aall_adel; exact H2.
+Qed.
+Lemma abs_with_adel x k : abs_swamp {| recs := adel k (recs x); infl := infl x |} = adel k (abs_swamp x).
+Proof. unfold abs_swamp; cbn. apply adel_amap. Qed.
+Lemma nil_match_abs {T} (l : list (Z * rec)) (a b : T) :
+  match amap abs_rec l with [] => a | _ => b end = match l with [] => a | _ => b end.
+Proof. destruct l; reflexivity. Qed.
+
+Lemma del_keys_abs : forall keys x a,
+  wf_swamp x = true ->
+  let '(x', a', os) := del_keys x a keys in
+  s_del_keys (abs_swamp x) a keys = (abs_swamp x', a', os) /\ wf_swamp x' = true.
+Proof.
+  induction keys as [|k t IH]; intros x a Hwf; cbn [del_keys s_del_keys]; [split; [reflexivity|exact Hwf]|].
+  rewrite ahas_abs_swamp. destruct (ahas k (recs x)).
+  - pose proof (IH {| recs := adel k (recs x); infl := infl x |}
+                  (match adel k (recs x) with [] => false | _ => a end) (wf_with_adel x k Hwf)) as H.
+    cbn [recs] in *.
+    destruct (del_keys {| recs := adel k (recs x); infl := infl x |} _ t) as [[x2 a2] os].
+    destruct H as [H1 H2]. rewrite <- abs_with_adel.
+    replace (match abs_swamp {| recs := adel k (recs x); infl := infl x |} with [] => false | _ => a end)
+      with (match adel k (recs x) with [] => false | _ => a end) by (unfold abs_swamp; cbn; symmetry; apply nil_match_abs).
+    rewrite H1. split; [reflexivity|exact H2].
+  - pose proof (IH x a Hwf) as H. destruct (del_keys x a t) as [[x2 a2] os]. destruct H as [H1 H2].
+    rewrite H1. split; [reflexivity|exact H2].
+Qed.
+
+Lemma shift_keys_abs : forall keys x,
+  wf_swamp x = true ->
+  let '(x', vs) := shift_keys x keys in
+  s_shift_keys (abs_swamp x) keys = (abs_swamp x', vs) /\ wf_swamp x' = true.
+Proof.
+  induction keys as [|k t IH]; intros x Hwf; cbn [shift_keys s_shift_keys]; [split; [reflexivity|exact Hwf]|].
+  rewrite aget_abs_swamp. destruct (aget k (recs x)) as [r|] eqn:E; cbn [option_map].
+  - pose proof (IH _ (wf_with_adel x k Hwf)) as H.
+    destruct (shift_keys {| recs := adel k (recs x); infl := infl x |} t) as [x2 vs].
+    destruct H as [H1 H2]. rewrite <- abs_with_adel, H1. split; [|exact H2].
+    f_equal. f_equal. symmetry. apply view_clone_abs.
+    unfold wf_swamp in Hwf. apply andb_true_iff in Hwf as [_ Hwf]. eapply aall_aget; eauto.
+  - apply IH; exact Hwf.
+Qed.
+
+(* ---- Set ---- *)
+Lemma ty_eqb_eq a b : ty_eqb a b = true <-> a = b.
+Proof. unfold ty_eqb. split; [|intros ->; apply Z.eqb_refl]. destruct a, b; cbn; intros H; try reflexivity; discriminate. Qed.
+
+Lemma apply_meta_props r m :
+  r_c (apply_meta r m) = r_c r /\ r_meta (apply_meta r m) = merge_meta (r_meta r) m /\
+  r_dirty (apply_meta r m) = r_dirty r || meta_given m.
+Proof.
+  destruct r as [c [a1 a2 a3 a4 a5] d], m as [b1 b2 b3 b4 b5].
+  unfold apply_meta, merge_meta, meta_given, meta_eqb, meta0, upd_meta; cbn.
+  destruct (b1 =? 0), (b2 =? 0), (b3 =? 0), (b4 =? 0), (b5 =? 0); cbn;
+    repeat split; try reflexivity; destruct d; reflexivity.
+Qed.
+Lemma merge_meta0 o : merge_meta o meta0 = o.
+Proof. destruct o; reflexivity. Qed.
+Lemma meta_eqb_eq a b : meta_eqb a b = true <-> a = b.
+Proof.
+  destruct a, b; unfold meta_eqb; cbn. split.
+  - intros H. repeat (apply andb_true_iff in H as [H ?]).
+    repeat match goal with E : (_ =? _) = true |- _ => apply Z.eqb_eq in E end. subst. reflexivity.
+  - intros H; inversion H; subst. rewrite !Z.eqb_refl. reflexivity.
+Qed.
+Lemma meta_given_false m : meta_given m = false -> m = meta0.
+Proof. unfold meta_given. intros H. apply negb_false_iff in H. apply meta_eqb_eq; exact H. Qed.
+
+(* effect of keyValuesToTreasure on a stored, well-formed record for the value kinds the
+   specification covers *)
+Lemma apply_val_existing old v :
+  wf_rec old = true ->
+  match v with SVVoid => sval_of (r_c old) = SVoid | SVSl _ => False | SVSc _ _ => True end ->
+  let r := apply_val old v in
+  sval_of (r_c r) = sval_of_set v /\ r_meta r = r_meta old /\ single (r_c r) = true /\
+  r_dirty r = negb (sval_eqb (sval_of_set v) (sval_of (r_c old))) /\
+  (r_dirty r = false -> r = old).
+Proof.
+  unfold wf_rec. intros Hwf Hd. apply andb_true_iff in Hwf as [Hdirty Hs]. apply negb_true_iff in Hdirty.
+  destruct old as [[[cv cs cl]|] m d]; cbn in Hdirty, Hs; subst d; [|discriminate].
+  destruct cv, cs as [[t' z']|], cl as [l'|]; try discriminate Hs;
+    destruct v as [|t z|l]; cbn in Hd; try contradiction; try discriminate Hd.
+  - (* Void over Void *) cbn. repeat split; reflexivity.
+  - (* scalar over Void *) cbn. repeat split; try reflexivity. discriminate.
+  - (* scalar over scalar *)
+    unfold apply_val, set_sc, sc_same; cbn [r_c c_sc].
+    destruct (ty_eqb t t' && (wrap t z =? z')) eqn:E.
+    + apply andb_true_iff in E as [E1 E2]. apply ty_eqb_eq in E1. apply Z.eqb_eq in E2. subst.
+      cbn. rewrite (proj2 (ty_eqb_eq t' t') eq_refl), Z.eqb_refl. repeat split; reflexivity.
+    + cbn. rewrite E. repeat split; try reflexivity. discriminate.
+  - (* scalar over slice *) cbn. repeat split; try reflexivity. discriminate.
+Qed.
+
+Lemma apply_val_fresh v :
+  let r := apply_val fresh_rec v in
+  sval_of (r_c r) = sval_of_set v /\ r_meta r = meta0 /\ single (r_c r) = true.
+Proof. destruct v; cbn; repeat split; reflexivity. Qed.
+
+Lemma wf_swamp_inv x : wf_swamp x = true -> infl x = [] /\ aall wf_rec (recs x) = true.
+Proof. unfold wf_swamp. intros H. apply andb_true_iff in H as [H1 H2]. destruct (infl x); [split; [reflexivity|exact H2]|discriminate]. Qed.
+Lemma wf_swamp_intro r i : i = [] -> aall wf_rec r = true -> wf_swamp {| recs := r; infl := i |} = true.
+Proof. intros -> H. unfold wf_swamp; cbn. exact H. Qed.
+
+Lemma set_item_sim create over x it :
+  wf_swamp x = true ->
+  disc_set_item create over (abs_swamp x) it = 0 ->
+  disc_set_meta create over (abs_swamp x) it = 0 ->
+  let '(x', o) := set_item cfg_now create over x it in
+  s_set_item create over (abs_swamp x) it = (abs_swamp x', o) /\ wf_swamp x' = true.
+Proof.
+  intros Hwf D1 D2. destruct (wf_swamp_inv x Hwf) as [Hinfl Hall].
+  unfold set_item, s_set_item, disc_set_item, disc_set_meta in *.
+  rewrite aget_abs_swamp in *. unfold ahas. destruct it as [k v m]; cbn [kv_key kv_val kv_meta] in *.
+  destruct (aget k (recs x)) as [old|] eqn:E; cbn [option_map] in *.
+  - (* existing key *)
+    rewrite andb_false_r. destruct over; cbn [negb andb] in *; [|split; [reflexivity|exact Hwf]].
+    assert (Hold : wf_rec old = true) by (eapply aall_aget; eauto).
+    assert (Hobj : obj_of x k = old) by (unfold obj_of; rewrite E; reflexivity). rewrite Hobj.
+    assert (Hd : match v with SVVoid => sval_of (r_c old) = SVoid | SVSl _ => False | SVSc _ _ => True end).
+    { destruct v; [|exact I|discriminate]. cbn in D1. destruct (sval_of (r_c old)); [reflexivity|discriminate|discriminate]. }
+    destruct (apply_val_existing old v Hold Hd) as (A1 & A2 & A3 & A4 & A5).
+    destruct (apply_meta_props (apply_val old v) m) as (B1 & B2 & B3).
+    unfold save, ahas. rewrite E. cbn [abs_rec s_val s_meta] in *.
+    rewrite B3, A4.
+    destruct (sval_eqb (sval_of_set v) (sval_of (r_c old))) eqn:Ev; cbn [negb orb andb] in *.
+    + destruct (meta_given m) eqn:Em; cbn [andb] in *.
+      * (* metadata supplied: the discipline says it differs *)
+        destruct (meta_eqb (merge_meta (r_meta old) m) (r_meta old)) eqn:Emm; [discriminate|].
+        cbn [clear_flags cfg_now c_sticky]. split.
+        -- unfold abs_swamp; cbn [recs]. rewrite aput_amap. unfold abs_rec; cbn. rewrite B1, A1, B2, A2. reflexivity.
+        -- apply wf_swamp_intro; [exact Hinfl|]. apply aall_aput; [exact Hall|].
+           unfold wf_rec; cbn. rewrite B1, A3. reflexivity.
+      * (* nothing supplied, same value: untouched *)
+        apply meta_given_false in Em. subst m. rewrite merge_meta0.
+        assert (Hm : meta_eqb (r_meta old) (r_meta old) = true) by (apply meta_eqb_eq; reflexivity). rewrite Hm.
+        assert (Hr : apply_meta (apply_val old v) meta0 = old).
+        { rewrite (A5 A4). destruct old as [c [a1 a2 a3 a4 a5] d]; reflexivity. }
+        rewrite Hr. rewrite (aput_same k old (recs x) E). split; [destruct x; reflexivity|].
+        destruct x; cbn in *; exact Hwf.
+    + (* value differs *)
+      cbn [clear_flags cfg_now c_sticky]. split.
+      * unfold abs_swamp; cbn [recs]. rewrite aput_amap. unfold abs_rec; cbn. rewrite B1, A1, B2, A2. reflexivity.
+      * apply wf_swamp_intro; [exact Hinfl|]. apply aall_aput; [exact Hall|].
+        unfold wf_rec; cbn. rewrite B1, A3. reflexivity.
+  - (* absent key *)
+    rewrite andb_true_r, andb_false_r. destruct create; cbn [negb]; [|split; [reflexivity|exact Hwf]].
+    assert (Hobj : obj_of x k = fresh_rec) by (unfold obj_of; rewrite E, Hinfl; reflexivity). rewrite Hobj.
+    destruct (apply_val_fresh v) as (A1 & A2 & A3).
+    destruct (apply_meta_props (apply_val fresh_rec v) m) as (B1 & B2 & B3).
+    unfold save, ahas. rewrite E. cbn [clear_flags cfg_now c_sticky]. split.
+    + unfold abs_swamp; cbn [recs]. rewrite aput_amap. unfold abs_rec; cbn. rewrite B1, A1, B2, A2. reflexivity.
+    + apply wf_swamp_intro; [rewrite Hinfl; reflexivity|]. apply aall_aput; [exact Hall|].
+      unfold wf_rec; cbn. rewrite B1, A3. reflexivity.
+Qed.
